@@ -77,3 +77,12 @@ pub fn vx_map_while<T, U, F: Fn(T) -> Option<U>>(s: VStream<T>, f: F) -> (r: VSt
 pub fn vx_once<T>(fut: Ready<T>) -> (r: VStream<T>)
     ensures r@ == seq![fut.v],
 { unimplemented!() }
+
+// tokio_stream::StreamExt::filter_map (synchronous closure): items mapped to None are SKIPPED, the stream goes on
+#[verifier::external_body]
+pub fn vx_filter_map<T, U, F: Fn(T) -> Option<U>>(s: VStream<T>, f: F) -> (r: VStream<U>)
+    requires forall|t: T| f.requires((t,)),
+    ensures exists|idx: Seq<int>| #[trigger] increasing_in(idx, s@.len() as int) && idx.len() == r@.len()
+        && (forall|k: int| 0 <= k < idx.len() ==> f.ensures((s@[#[trigger] idx[k]],), Some(r@[k])))
+        && (forall|j: int| 0 <= j < s@.len() && !idx.contains(j) ==> f.ensures((#[trigger] s@[j],), None)),
+{ unimplemented!() }
